@@ -413,9 +413,81 @@ func gen(kind, elem string) func(t *rapid.T) Case {
 }
 
 func TestGenerated(t *testing.T) {
+	pbt.ReplayOnly(t, pbt.Target[Case]{Name: "fuzz", Check: check})
 	for _, kind := range all.Kinds {
 		for _, elem := range []string{"int", "string"} {
 			pbt.Run(t, pbt.Target[Case]{Name: kind + "/" + elem, Checks: 4000, Gen: gen(kind, elem), Check: check})
 		}
 	}
+}
+
+// opsFromBytes decodes a byte string into a script (two bytes per operation).
+func opsFromBytes(kind string, b []byte, n int) []script.Op {
+	var ops []script.Op
+	kv := all.KeyValue(kind)
+	for i := 0; i+1 < len(b) && len(ops) < 12; i += 2 {
+		x, y := int(b[i+1])%n, int(b[i+1]/16)%n
+		switch b[i] % 8 {
+		case 0, 1, 2:
+			ops = append(ops, script.Op{O: "add", X: x})
+		case 3, 4:
+			if kv {
+				ops = append(ops, script.Op{O: "put", X: x, Y: y})
+			} else {
+				ops = append(ops, script.Op{O: "addn", Xs: []int{x, y}})
+			}
+		case 5, 6:
+			ops = append(ops, script.Op{O: "rem", X: x})
+		default:
+			ops = append(ops, script.Op{O: "clear"})
+		}
+	}
+	return ops
+}
+
+// FuzzFromJSON is the coverage-guided byte-level target of the thorough tier:
+// (configuration byte, prior-content script, input bytes, follow-up script),
+// with the same semantic oracle as the generated check inside the target.
+func FuzzFromJSON(f *testing.F) {
+	seeds := []string{
+		`["a","b","c"]`, `[1,2,3]`, `{"a":1,"b":2,"c":3}`, `{"a":"1","b":"2","c":"3"}`, `{"1":1,"2":2}`, `[]`, `{}`, `null`,
+		`[7,8,"x",9]`, `[null,null]`, `{"a":1,"b":"z"}`, `[5,3,9,1]`, `{"a":"c","b":"1","c":"2"}`, `[1,2,3,4,5,6,7,8,9]`, `{"1":1,"2":1}`,
+		`[1e400]`, `{"\u0061":1,"a":2}`, `[1,2`, `{"a":`, `[[1]]`, `{"a":{"b":1}}`, ` [ 1 , 2 ] `, `[1]x`, `{"x1":1}`, `{"1.0":1}`, "[\"\xff\"]",
+	}
+	for k := 0; k < len(all.Kinds)*4; k += 3 {
+		for i, s := range seeds {
+			if (i+k)%5 == 0 {
+				f.Add(uint8(k), []byte{0, 1, 0, 2, 0, 3, 5, 1}, []byte(s), []byte{0, 4, 5, 2, 3, 7})
+			}
+		}
+	}
+	f.Fuzz(func(t *testing.T, cfgByte uint8, prior []byte, data []byte, cont []byte) {
+		if len(data) > 4096 || len(prior) > 64 || len(cont) > 64 {
+			t.Skip()
+		}
+		kind := all.Kinds[int(cfgByte/4)%len(all.Kinds)]
+		c := Case{Elem: []string{"int", "string"}[cfgByte%2], Via: []string{"fromjson", "unmarshal"}[(cfgByte/2)%2]}
+		c.Cfg = all.Cfg{Kind: kind}
+		if all.UsesComparator(kind) {
+			c.Cfg.Rev = len(prior)%2 == 1
+		}
+		if kind == "circularbuffer" {
+			c.Cfg.Cap = 1 + len(cont)%4
+		}
+		if kind == "btree" {
+			c.Cfg.Order = 3 + len(cont)%3
+		}
+		n := len(script.IntDomain.Elems)
+		if c.Elem == "string" {
+			n = len(script.StringDomain.Elems)
+		}
+		c.Prior = opsFromBytes(kind, prior, n)
+		c.Cont = opsFromBytes(kind, cont, n)
+		c.In = data
+		c.Show = fmt.Sprintf("%q", data)
+		if _, err := check(c); err != nil {
+			p := pbt.SaveFuzzFailure("C12", "fuzz", c, err)
+			t.Fatalf("violation: replay=%s %v", p, err)
+		}
+	})
 }
